@@ -196,10 +196,19 @@ func (f *File) register(path string) string {
 		alias = true
 	}
 
+	// stored is the name as it will be registered: aliases carry the prefix, so
+	// it is the prefixed form that must not clash with a registered name.
+	stored := func(n string) string {
+		if f.PackagePrefix != "" && (alias || n != name) {
+			return f.PackagePrefix + "_" + n
+		}
+		return n
+	}
+
 	// If the name is invalid or has been registered already, make it unique by appending a number
 	unique := name
 	i := 0
-	for !f.isValidAlias(unique) {
+	for !f.isValidAlias(unique) || !f.isValidAlias(stored(unique)) {
 		i++
 		unique = fmt.Sprintf("%s%d", name, i)
 	}
